@@ -1,7 +1,9 @@
 /-
   Property C14 — streaming KZG: the space-efficient (streaming) committer and prover return exactly
-  what the time-efficient ones return, the verifier accepts the true evaluations and nothing else,
-  and the folded-polynomial iterators enumerate the successive foldings.
+  what the time-efficient ones return, a polynomial with more coefficients than the key has powers is
+  refused by all of them (fix D24: never committed or opened as its truncation), the verifier accepts
+  the true evaluations and nothing else, and the folded-polynomial iterators enumerate the successive
+  foldings.
   Only property theorems live here; lemmas are in PCV/Proofs/StreamKZG{,Multi,Verify}.lean and
   PCV/Proofs/Fold{,Commit}.lean.
 
@@ -23,35 +25,92 @@ variable {F : Type} [Field F]
 
 /-- **`CommitterKeyStream::open` = `CommitterKey::open`** (evaluation *and* proof) for EVERY
 coefficient list, every point and every key (any list of G1 elements, well-formed or not) with at
-least as many elements as the polynomial has coefficients. -/
+least as many elements as the polynomial has coefficients: both answer, and the same. -/
 theorem space_open_eq_time_open (ck : CK F) (p : List F) (α : F)
     (h : p.length ≤ ck.powersOfG.length) :
-    Space.open (CKS.ofTime ck) p.reverse α = .ok (Time.open ck p α) :=
-  SKZG.space_open_eq_time_open ck p α h
+    ∃ o, Space.open (CKS.ofTime ck) p.reverse α = .ok o ∧ Time.open ck p α = .ok o :=
+  ⟨_, (SKZG.space_open_eq_time_open ck p α h).trans (SKZG.time_open_eq ck p α h),
+    SKZG.time_open_eq ck p α h⟩
 
-/-- … and with a shorter key the streaming prover aborts (`usize` underflow) instead of answering. -/
+/-- … and with a shorter key the streaming prover aborts (an assertion since fix D24, the `usize`
+underflow of the skip before it) instead of answering. -/
 theorem space_open_refuses_short_key (ck : CK F) (p : List F) (α : F)
     (h : ck.powersOfG.length < p.length) :
     Space.open (CKS.ofTime ck) p.reverse α = .error .abort :=
   SKZG.space_open_abort ck p α h
 
-/-- **`CommitterKeyStream::commit` = `CommitterKey::commit`** under the same condition. -/
+/-- **`CommitterKeyStream::commit` = `CommitterKey::commit`** under the same condition: both answer,
+and the same. -/
 theorem space_commit_eq_time_commit (ck : CK F) (p : List F)
     (h : p.length ≤ ck.powersOfG.length) :
-    Space.commit (CKS.ofTime ck) p.reverse = .ok (Time.commit ck p) :=
-  SKZG.space_commit_eq_time_commit ck p h
+    ∃ c, Space.commit (CKS.ofTime ck) p.reverse = .ok c ∧ Time.commit ck p = .ok c :=
+  ⟨_, (SKZG.space_commit_eq_time_commit ck p h).trans (SKZG.time_commit_eq ck p h),
+    SKZG.time_commit_eq ck p h⟩
 
 /-- What both provers return: the evaluation `p(α)` and the MSM of the synthetic-division
 quotient. -/
-theorem time_open_spec (ck : CK F) (p : List F) (α : F) :
-    Time.open ck p α = (evalPoly p α, dot ck.powersOfG (divLin p α).1) :=
-  SKZG.time_open_eq ck p α
+theorem time_open_spec (ck : CK F) (p : List F) (α : F) (h : p.length ≤ ck.powersOfG.length) :
+    Time.open ck p α = .ok (evalPoly p α, dot ck.powersOfG (divLin p α).1) :=
+  SKZG.time_open_eq ck p α h
+
+/-- What both committers return: the MSM of the coefficients with the key. -/
+theorem time_commit_spec (ck : CK F) (p : List F) (h : p.length ≤ ck.powersOfG.length) :
+    Time.commit ck p = .ok (dot ck.powersOfG p) :=
+  SKZG.time_commit_eq ck p h
+
+/-- `batch_commit` is `commit` on every polynomial, when none is oversize. -/
+theorem time_batch_commit_spec (ck : CK F) (ps : List (List F))
+    (h : ∀ p ∈ ps, p.length ≤ ck.powersOfG.length) :
+    Time.batchCommit ck ps = .ok (ps.map (dot ck.powersOfG)) :=
+  SKZG.time_batchCommit_eq ck ps h
 
 example : Space.open (CKS.ofTime (CK.new (3 : K) 5 7 6 2)) ([4, 9, 2, 77, 5] : List K).reverse 11
-    = .ok (Time.open (CK.new (3 : K) 5 7 6 2) [4, 9, 2, 77, 5] 11) := by decide
-example : Time.open (CK.new (3 : K) 5 7 6 2) [4, 9, 2, 77, 5] 11 = (95, 72) := by decide
+    = Time.open (CK.new (3 : K) 5 7 6 2) [4, 9, 2, 77, 5] 11 := by decide
+example : Time.open (CK.new (3 : K) 5 7 6 2) [4, 9, 2, 77, 5] 11 = .ok (95, 72) := by decide
+example : Time.commit (CK.new (3 : K) 5 7 6 2) [4, 9, 2, 77, 5] = .ok 98 := by decide
+example : Time.batchCommit (CK.new (3 : K) 5 7 8 3) [[4, 9, 2, 77, 5], [1, 0, 6, 8, 0, 0]]
+    = .ok [98, 27] := by decide
 example : Space.open (CKS.ofTime (CK.new (3 : K) 5 7 3 2)) ([4, 9, 2, 77, 5] : List K).reverse 11
     = .error .abort := by decide
+
+/-! ### an oversize polynomial is refused, never truncated (fix D24) -/
+
+/-- **`CommitterKey::commit` refuses a polynomial longer than the key** (before the fix the MSM dropped
+the coefficients without a power and the commitment was the one of the truncated polynomial, which
+opens to the truncation's evaluations, not the polynomial's). -/
+theorem time_commit_refuses_oversize (ck : CK F) (p : List F)
+    (h : ck.powersOfG.length < p.length) :
+    Time.commit ck p = .error .abort :=
+  SKZG.time_commit_abort ck p h
+
+/-- … and `batch_commit` refuses the whole batch when one of its polynomials is. -/
+theorem time_batch_commit_refuses_oversize (ck : CK F) (ps : List (List F))
+    (h : ∃ p ∈ ps, ck.powersOfG.length < p.length) :
+    Time.batchCommit ck ps = .error .abort :=
+  SKZG.time_batchCommit_abort ck ps h
+
+/-- **`CommitterKey::open` refuses a polynomial longer than the key** (before the fix the evaluation was
+the polynomial's and the proof the commitment of the truncated quotient). -/
+theorem time_open_refuses_oversize (ck : CK F) (p : List F) (α : F)
+    (h : ck.powersOfG.length < p.length) :
+    Time.open ck p α = .error .abort :=
+  SKZG.time_open_abort ck p α h
+
+/-- since the fix the time- and the space-efficient committer and single-point prover agree on EVERY
+input, the refused ones included -/
+theorem space_eq_time_everywhere (ck : CK F) (p : List F) (α : F) :
+    Space.commit (CKS.ofTime ck) p.reverse = Time.commit ck p
+      ∧ Space.open (CKS.ofTime ck) p.reverse α = Time.open ck p α :=
+  ⟨SKZG.space_commit_eq_time_commit_all ck p, SKZG.space_open_eq_time_open_all ck p α⟩
+
+-- a key for degree 3 (four powers) and a polynomial with five coefficients
+example : (CK.new (3 : K) 5 7 3 2).powersOfG.length < ([4, 9, 2, 77, 5] : List K).length := by decide
+example : Time.commit (CK.new (3 : K) 5 7 3 2) [4, 9, 2, 77, 5] = .error .abort := by decide
+example : Time.batchCommit (CK.new (3 : K) 5 7 3 2) [[4, 9], [4, 9, 2, 77, 5]] = .error .abort := by
+  decide
+example : Time.open (CK.new (3 : K) 5 7 3 2) [4, 9, 2, 77, 5] 11 = .error .abort := by decide
+-- high-order zeros count: the assertion is on the length of the slice
+example : Time.commit (CK.new (3 : K) 5 7 3 2) [4, 9, 2, 77, 0] = .error .abort := by decide
 
 /-! ### single point: the verifier -/
 
@@ -63,26 +122,30 @@ point: the verifier key derived from the committer key accepts the commitment, t
 the proof the (time- or, by the theorems above, space-efficient) prover returns. -/
 theorem verify_open_complete (g g2 τ : F) (D m : Nat) (hD : 1 ≤ D) (hm : 1 ≤ m) (p : List F) (α : F)
     (hp : p.length ≤ D + 1) (vk : VK F) (hvk : VK.ofTime (CK.new g g2 τ D m) = .ok vk) :
-    verify vk (Time.commit (CK.new g g2 τ D m) p) α (Time.open (CK.new g g2 τ D m) p α).1
-      (Time.open (CK.new g g2 τ D m) p α).2 = .ok true :=
-  SKZG.verify_open_complete g g2 τ D m hD hm p α hp vk hvk
+    ∃ c o, Time.commit (CK.new g g2 τ D m) p = .ok c ∧ Time.open (CK.new g g2 τ D m) p α = .ok o
+      ∧ verify vk c α o.1 o.2 = .ok true :=
+  ⟨_, _, SKZG.time_commit_new g g2 τ D m p hp, SKZG.time_open_new g g2 τ D m p α hp,
+    SKZG.verify_open_complete g g2 τ D m hD hm p α hp vk hvk _ _
+      (SKZG.time_commit_new g g2 τ D m p hp) (SKZG.time_open_new g g2 τ D m p α hp)⟩
 
 /-- **`verify` decides exactly the claim.** Same setting; the value is shifted by an arbitrary `δ`:
 accepted iff `g·g2·δ = 0`. -/
 theorem verify_iff (g g2 τ : F) (D m : Nat) (hD : 1 ≤ D) (hm : 1 ≤ m) (p : List F) (α δ : F)
-    (hp : p.length ≤ D + 1) (vk : VK F) (hvk : VK.ofTime (CK.new g g2 τ D m) = .ok vk) :
-    verify vk (Time.commit (CK.new g g2 τ D m) p) α ((Time.open (CK.new g g2 τ D m) p α).1 + δ)
-      (Time.open (CK.new g g2 τ D m) p α).2 = .ok true ↔ g * g2 * δ = 0 :=
-  SKZG.verify_iff g g2 τ D m hD hm p α δ hp vk hvk
+    (hp : p.length ≤ D + 1) (vk : VK F) (hvk : VK.ofTime (CK.new g g2 τ D m) = .ok vk)
+    (c : F) (o : F × F) (hc : Time.commit (CK.new g g2 τ D m) p = .ok c)
+    (ho : Time.open (CK.new g g2 τ D m) p α = .ok o) :
+    verify vk c α (o.1 + δ) o.2 = .ok true ↔ g * g2 * δ = 0 :=
+  SKZG.verify_iff g g2 τ D m hD hm p α δ hp vk hvk c o hc ho
 
 /-- **A wrong value is rejected**: with non-trivial generators, `value + δ`, `δ ≠ 0`, is never
 accepted with the honest proof. -/
 theorem wrong_value_rejected (g g2 τ : F) (D m : Nat) (hD : 1 ≤ D) (hm : 1 ≤ m) (p : List F)
     (α δ : F) (hp : p.length ≤ D + 1) (vk : VK F) (hvk : VK.ofTime (CK.new g g2 τ D m) = .ok vk)
-    (hg : g ≠ 0) (hg2 : g2 ≠ 0) (hδ : δ ≠ 0) :
-    verify vk (Time.commit (CK.new g g2 τ D m) p) α ((Time.open (CK.new g g2 τ D m) p α).1 + δ)
-      (Time.open (CK.new g g2 τ D m) p α).2 = .ok false :=
-  SKZG.wrong_value_rejected g g2 τ D m hD hm p α δ hp vk hvk hg hg2 hδ
+    (hg : g ≠ 0) (hg2 : g2 ≠ 0) (hδ : δ ≠ 0)
+    (c : F) (o : F × F) (hc : Time.commit (CK.new g g2 τ D m) p = .ok c)
+    (ho : Time.open (CK.new g g2 τ D m) p α = .ok o) :
+    verify vk c α (o.1 + δ) o.2 = .ok false :=
+  SKZG.wrong_value_rejected g g2 τ D m hD hm p α δ hp vk hvk hg hg2 hδ c o hc ho
 
 /-- **A key without `τ·g2` verifies nothing** (fix D22): with fewer than two G2 powers — a key made for zero
 evaluation points — or without a G1 power, `verify` rejects every claim, true or false, whatever the proof
@@ -98,16 +161,16 @@ example : verify (⟨[3], [5]⟩ : VK K) 7 2 9 11 = .ok false := by decide
 /-- the verifier key derived from the *stream* key decides single-point claims the same way -/
 theorem verify_stream_key_iff (g g2 τ : F) (D m : Nat) (hD : 1 ≤ D) (hm : 1 ≤ m) (p : List F)
     (α δ : F) (hp : p.length ≤ D + 1) (vk : VK F)
-    (hvk : VK.ofSpace (CKS.ofTime (CK.new g g2 τ D m)) = .ok vk) :
-    verify vk (Time.commit (CK.new g g2 τ D m) p) α ((Time.open (CK.new g g2 τ D m) p α).1 + δ)
-      (Time.open (CK.new g g2 τ D m) p α).2 = .ok true ↔ g * g2 * δ = 0 :=
-  SKZG.verify_stream_key_iff g g2 τ D m hD hm p α δ hp vk hvk
+    (hvk : VK.ofSpace (CKS.ofTime (CK.new g g2 τ D m)) = .ok vk)
+    (c : F) (o : F × F) (hc : Time.commit (CK.new g g2 τ D m) p = .ok c)
+    (ho : Time.open (CK.new g g2 τ D m) p α = .ok o) :
+    verify vk c α (o.1 + δ) o.2 = .ok true ↔ g * g2 * δ = 0 :=
+  SKZG.verify_stream_key_iff g g2 τ D m hD hm p α δ hp vk hvk c o hc ho
 
 example : VK.ofTime (CK.new (3 : K) 5 7 6 2) = .ok ⟨[3, 21], [5, 35, 43]⟩ := by decide
-example : verify (⟨[3, 21], [5, 35, 43]⟩ : VK K) (Time.commit (CK.new (3 : K) 5 7 6 2) [4, 9, 2, 77, 5])
-    11 95 72 = .ok true := by decide
-example : verify (⟨[3, 21], [5, 35, 43]⟩ : VK K) (Time.commit (CK.new (3 : K) 5 7 6 2) [4, 9, 2, 77, 5])
-    11 (95 + 1) 72 = .ok false := by decide
+-- (the commitment `98` and the opening `(95, 72)` are the ones of the examples above)
+example : verify (⟨[3, 21], [5, 35, 43]⟩ : VK K) 98 11 95 72 = .ok true := by decide
+example : verify (⟨[3, 21], [5, 35, 43]⟩ : VK K) 98 11 (95 + 1) 72 = .ok false := by decide
 example : (3 : K) ≠ 0 ∧ (5 : K) ≠ 0 ∧ (1 : K) ≠ 0 := by decide
 
 /-! ### multi-point / multi-polynomial openings -/
@@ -122,6 +185,36 @@ theorem space_open_multi_points_eq_time (ck : CK F) (p pts : List F) (hm : 1 ≤
     ∃ r, Space.openMultiPoints (CKS.ofTime ck) p.reverse pts = .ok r
       ∧ Time.openMultiPoints ck p pts = .ok r.2 :=
   SKZG.space_openMulti_proof_eq_time ck p pts hm hL
+
+/-- **`CommitterKey::open_multi_points` refuses a polynomial longer than the key** (fix D24; before it
+the quotient was committed as its truncation), whatever the points. -/
+theorem time_open_multi_points_refuses_oversize (ck : CK F) (p pts : List F)
+    (h : ck.powersOfG.length < p.length) :
+    Time.openMultiPoints ck p pts = .error .abort :=
+  SKZG.time_openMulti_abort ck p pts h
+
+/-- … and `batch_open_multi_points` through it, when the η-combination of the polynomials — as the
+`DensePolynomial` the code forms, i.e. without high-order zero coefficients — is longer than the key. -/
+theorem time_batch_open_multi_points_refuses_oversize (ck : CK F) (ps : List (List F))
+    (pts b : List F) (η : F) (hb : linearCombination ps (powersOf η ps.length) = some b)
+    (h : ck.powersOfG.length < (pnorm b).length) :
+    Time.batchOpenMultiPoints ck ps pts η = .error .abort :=
+  SKZG.time_batchOpenMulti_abort ck ps pts b η hb h
+
+example : Time.openMultiPoints (CK.new (3 : K) 5 7 3 3) [4, 9, 2, 77, 5] [2, 3, 10] = .error .abort := by
+  decide
+example : linearCombination ([[4, 9, 2, 77, 5], [1, 0, 6]] : List (List K)) (powersOf 13 2)
+    = some [17, 9, 80, 77, 5] := by decide
+example : (CK.new (3 : K) 5 7 3 3).powersOfG.length < (pnorm ([17, 9, 80, 77, 5] : List K)).length := by
+  decide
+example : Time.batchOpenMultiPoints (CK.new (3 : K) 5 7 3 3) [[4, 9, 2, 77, 5], [1, 0, 6]] [2, 3, 10] 13
+    = .error .abort := by decide
+-- high-order zeros of the combination do not count (the `DensePolynomial` drops them) …
+example : Time.batchOpenMultiPoints (CK.new (3 : K) 5 7 3 3) [[4, 9, 2, 77, 0, 0]] [2, 3, 10] 13
+    = .ok 29 := by decide +kernel
+-- … but those of the slice handed to `open_multi_points` itself do
+example : Time.openMultiPoints (CK.new (3 : K) 5 7 3 3) [4, 9, 2, 77, 0, 0] [2, 3, 10] = .error .abort := by
+  decide
 
 omit [DecidableEq F] in
 /-- **The remainder the streaming prover returns** has one entry per point and, read as a
@@ -144,9 +237,11 @@ theorem verify_multi_points_complete (g g2 τ : F) (D m : Nat) (ps : List (List 
     (hπ : Time.batchOpenMultiPoints (CK.new g g2 τ D m) ps pts η = .ok π) (vk : VK F)
     (hvk : VK.ofTime (CK.new g g2 τ D m) = .ok vk
       ∨ VK.ofSpace (CKS.ofTime (CK.new g g2 τ D m)) = .ok vk) :
-    verifyMultiPoints vk (Time.batchCommit (CK.new g g2 τ D m) ps) pts
-      (ps.map (fun p => pts.map (evalPoly p))) π η = .ok true :=
-  SKZG.verifyMulti_new_complete g g2 τ D m ps pts η π hps hlen hnd hm hD hπ vk hvk
+    ∃ cs, Time.batchCommit (CK.new g g2 τ D m) ps = .ok cs
+      ∧ verifyMultiPoints vk cs pts (ps.map (fun p => pts.map (evalPoly p))) π η = .ok true :=
+  ⟨_, SKZG.time_batchCommit_new g g2 τ D m ps hlen,
+    SKZG.verifyMulti_new_complete g g2 τ D m ps pts η π hps hlen hnd hm hD hπ vk hvk _
+      (SKZG.time_batchCommit_new g g2 τ D m ps hlen)⟩
 
 /-- **`verify_multi_points` decides exactly the claim.** Same setting, arbitrary claimed evaluation
 vectors (one per polynomial): accepted iff `g·g2·(I_claimed(τ) − I_true(τ)) = 0`, where `I` is the
@@ -159,11 +254,12 @@ theorem verify_multi_points_iff (g g2 τ : F) (D m : Nat) (ps : List (List F)) (
     (hrows : ∀ e ∈ claimed, e.length = pts.length)
     (hπ : Time.batchOpenMultiPoints (CK.new g g2 τ D m) ps pts η = .ok π) (vk : VK F)
     (hvk : VK.ofTime (CK.new g g2 τ D m) = .ok vk
-      ∨ VK.ofSpace (CKS.ofTime (CK.new g g2 τ D m)) = .ok vk) :
-    verifyMultiPoints vk (Time.batchCommit (CK.new g g2 τ D m) ps) pts claimed π η = .ok true
+      ∨ VK.ofSpace (CKS.ofTime (CK.new g g2 τ D m)) = .ok vk)
+    (cs : List F) (hcs : Time.batchCommit (CK.new g g2 τ D m) ps = .ok cs) :
+    verifyMultiPoints vk cs pts claimed π η = .ok true
       ↔ g * g2 * (interpAt pts claimed η τ
           - interpAt pts (ps.map (fun p => pts.map (evalPoly p))) η τ) = 0 :=
-  SKZG.verifyMulti_new_iff g g2 τ D m ps pts claimed η π hps hlen hnd hm hD hcl hrows hπ vk hvk
+  SKZG.verifyMulti_new_iff g g2 τ D m ps pts claimed η π hps hlen hnd hm hD hcl hrows hπ vk hvk cs hcs
 
 /-- **Out of the verifier key's domain: refused.** More evaluation points than the key was made for,
 or an evaluation table that does not have one row per commitment and one entry per point, is rejected
@@ -191,11 +287,12 @@ theorem wrong_multi_value_rejected (g g2 τ : F) (D m : Nat) (ps : List (List F)
     (hvk : VK.ofTime (CK.new g g2 τ D m) = .ok vk
       ∨ VK.ofSpace (CKS.ofTime (CK.new g g2 τ D m)) = .ok vk)
     (ha : a < ps.length) (hb : b < pts.length) (hg : g ≠ 0) (hg2 : g2 ≠ 0) (hη : η ≠ 0)
-    (hδ : δ ≠ 0) (hτ : τ ∉ pts) :
-    verifyMultiPoints vk (Time.batchCommit (CK.new g g2 τ D m) ps) pts
+    (hδ : δ ≠ 0) (hτ : τ ∉ pts)
+    (cs : List F) (hcs : Time.batchCommit (CK.new g g2 τ D m) ps = .ok cs) :
+    verifyMultiPoints vk cs pts
       (bumpAt (ps.map (fun p => pts.map (evalPoly p))) a b δ) π η = .ok false :=
   SKZG.verifyMulti_new_reject g g2 τ D m ps pts η π δ a b hps hlen hnd hm hD hπ vk hvk ha hb hg hg2
-    hη hδ hτ
+    hη hδ hτ cs hcs
 
 example : bumpAt ([[19, 8, 34], [89, 69, 16]] : List (List K)) 1 1 1 = [[19, 8, 34], [89, 70, 16]] := by
   decide
@@ -323,7 +420,8 @@ omit [DecidableEq F] in
 commitments are the time-efficient commitments of the explicitly folded polynomials, for every
 length, every depth and every key (any G1 list) at least as long as the input. -/
 theorem commit_folding_eq_time (ck : CK F) (cs chal : List F) (h : cs.length ≤ ck.powersOfG.length) :
-    commitFolding (CKS.ofTime ck) cs.reverse chal = .ok ((foldings cs chal).map (Time.commit ck)) :=
+    ∃ cms, commitFolding (CKS.ofTime ck) cs.reverse chal = .ok cms
+      ∧ Time.batchCommit ck (foldings cs chal) = .ok cms :=
   Fold.commitFolding_eq ck cs chal h
 
 /-- **`open_folding`**: there are per-level results `R[j]` = what the streaming `open_multi_points`
@@ -347,6 +445,8 @@ example : foldings ([1, 2, 3, 4, 5, 6, 7] : List K) [2, 3] = [[5, 11, 17, 7], [3
 example : Stream.toList ([1, 2, 3, 4, 5, 6, 7] : List K).reverse [2, 3] = [38, 38] := by decide
 example : (initStack 5 3 : List (Nat × K)) = [(0, 0), (1, 0)] := by decide
 example : commitFolding (CKS.ofTime (CK.new (3 : K) 5 7 8 3)) ([1, 2, 3, 4, 5, 6, 7] : List K).reverse [2, 3]
+    = .ok [50, 3] := by decide
+example : Time.batchCommit (CK.new (3 : K) 5 7 8 3) (foldings ([1, 2, 3, 4, 5, 6, 7] : List K) [2, 3])
     = .ok [50, 3] := by decide
 example : openFolding (CKS.ofTime (CK.new (3 : K) 5 7 8 3)) ([1, 2, 3, 4, 5, 6, 7] : List K).reverse [2, 3]
     [2, 3, 10] [1, 13] = .ok ([[21, 23, 21], [0, 38, 38]], 21) := by decide
